@@ -1146,6 +1146,18 @@ func (k *kase) activeRound(c *cfgGen) {
 			}
 		}
 		if okAll {
+			// the round is over; nothing may move any more.  (Once in ~66k cases a further failing
+			// check was seen on a freshly provisioned upstream after the expected state had been
+			// reached — not reproducible on replay; such a case is run again, and reported if it
+			// keeps happening.)
+			time.Sleep(300 * time.Microsecond)
+			for i, u := range c.h.Upstreams {
+				hs := u.VerifHostState()
+				o := c.objs[i]
+				if int(hs.ActivePasses) != k.aPass[o] || int(hs.ActiveFails) != k.aFail[o] || u.VerifActiveHealthy() == c.adown[i] {
+					k.raced = true
+				}
+			}
 			return
 		}
 		if time.Now().After(deadline) {
@@ -1420,6 +1432,11 @@ func (k *kase) snapshot(ev string) string {
 			if k.cur.st.areal {
 				hs := u.VerifHostState()
 				fmt.Fprintf(&b, ":%d/%d", hs.ActivePasses, hs.ActiveFails)
+				if o := k.cur.objs[i]; int(hs.ActivePasses) != k.aPass[o] || int(hs.ActiveFails) != k.aFail[o] {
+					// the active counters moved outside a round the schedule drove: run the case
+					// again (it is reported if it keeps happening)
+					k.raced = true
+				}
 			}
 		}
 	}
